@@ -1,4 +1,5 @@
 import AsherahVerif.Proofs.SessCache
+import AsherahVerif.Proofs.ExtraSessCache
 import AsherahVerif.Generated.SessCacheFacts
 /-
 C16 — cached sessions are shared, stay usable while held, are torn down exactly once.
@@ -102,5 +103,70 @@ theorem remove_without_wait_counterexample :
 /-- non-vacuity: sessions do get evicted and closed while others are held. -/
 example : (run Facts.good init [.getLoad 0 none false, .getLoad 1 (some 0) false, .close 0, .remove 0, .use 1]).sess.map (·.closes) = [1, 0] := by
   decide
+
+/-! ### exact accounting and progress (strengthening) -/
+
+/-- **the usage counter is exact**: in every reachable state the `accessCounter` of every session
+EQUALS the number of callers currently holding it (never more: a remover is never blocked for
+ever by a phantom user; never less: see `held_session_open`); cache keys are unique. -/
+theorem users_exact (sched : List Step) (s : Nat) :
+    (at' (run Facts.good init sched).sess s).users = ((run Facts.good init sched).holders.count s : Int) :=
+  (run_invEq init invEq_init sched).usersEq s
+
+/-- **exactly one life-cycle phase**: every session ever created is cached, or has exactly one
+remover, or has been closed exactly once (equality: none is forgotten). -/
+theorem life_exact (sched : List Step) (s : Nat) (hs : s < (run Facts.good init sched).sess.length) :
+    let st := run Facts.good init sched
+    inCache st.cache s + (at' st.sess s).removers + (at' st.sess s).closes = 1 :=
+  (run_invEq init invEq_init sched).lifeEq s hs
+
+theorem cache_keys_unique (sched : List Step) : (keysOf (run Facts.good init sched).cache).Nodup :=
+  (run_invEq init invEq_init sched).keys
+
+/-- **progress**: from any reachable state, once every holder has closed its session and every
+remover goroutine has been scheduled (`settle`), nothing is held, the cache is untouched, no
+remover is left over, every session that is not cached has been closed exactly once, and every
+cached session is still open. -/
+theorem closed_once_everyone_left (sched : List Step) :
+    let st := run Facts.good init sched
+    let st' := run Facts.good st (settle st)
+    st'.holders = [] ∧ st'.cache = st.cache ∧ st'.sess.length = st.sess.length ∧
+    (∀ s, (at' st'.sess s).removers = 0) ∧
+    (∀ s, s < st.sess.length → inCache st.cache s = 0 → (at' st'.sess s).closes = 1) ∧
+    (∀ s, 0 < inCache st.cache s → (at' st'.sess s).closes = 0) := by
+  intro st st'
+  have h := settle_spec st (run_invEq init invEq_init sched)
+  exact ⟨h.2.1, h.2.2.1, h.2.2.2.1, h.2.2.2.2.2.1, h.2.2.2.2.2.2.1, h.2.2.2.2.2.2.2⟩
+
+/-- **after the factory is closed and everybody has left, ALL sessions ever created have been torn
+down exactly once** — none forgotten, none closed twice, no remover left. -/
+theorem all_closed_after_factory_close (sched : List Step) :
+    let st := run Facts.good init sched
+    let st1 := run Facts.good st [.factoryClose]
+    let st2 := run Facts.good st1 (settle st1)
+    st2.sess.length = st.sess.length ∧ st2.cache = [] ∧ st2.holders = [] ∧
+    ∀ s, s < st.sess.length → (at' st2.sess s).closes = 1 ∧ (at' st2.sess s).removers = 0 := by
+  intro st st1 st2
+  have h0 : InvEq st := run_invEq init invEq_init sched
+  have h1 : InvEq st1 := run_invEq st h0 _
+  have hfc : st1.cache = [] ∧ st1.sess.length = st.sess.length := by
+    show (run Facts.good st [.factoryClose]).cache = [] ∧ (run Facts.good st [.factoryClose]).sess.length = _
+    simp only [run, step]
+    by_cases hcf : st.closedFactory = true
+    · rw [if_pos hcf]; exact ⟨h0.cf hcf, rfl⟩
+    · rw [if_neg hcf]
+      exact ⟨rfl, (at_spawnAll st.cache st.sess 0).1⟩
+  have h := settle_spec st1 h1
+  refine ⟨h.2.2.2.1.trans hfc.2, h.2.2.1.trans hfc.1, h.2.1, ?_⟩
+  intro s hs
+  refine ⟨h.2.2.2.2.2.2.1 s (by rw [hfc.2]; exact hs) (by rw [hfc.1]; rfl), h.2.2.2.2.2.1 s⟩
+
+/-- non-vacuity: `settle` really closes held, evicted sessions; the factory close reaches cached ones. -/
+example : let st := run Facts.good init [.getLoad 0 none false, .getHit 0, .getLoad 1 (some 0) false]
+    settle st = [.close 1, .close 0, .close 0, .remove 0, .remove 1] ∧
+    (run Facts.good st (settle st)).sess.map (·.closes) = [1, 0] ∧
+    (run Facts.good (run Facts.good st [.factoryClose]) (settle (run Facts.good st [.factoryClose]))).sess.map (·.closes) = [1, 1] := by
+  decide
+example : (at' (run Facts.good init [.getLoad 0 none false, .getHit 0, .getHit 0, .close 0]).sess 0).users = 2 := by decide
 
 end AsherahVerif.Props.C16
